@@ -43,5 +43,27 @@ CLAIMED = {
         "technique": TECH,
     },
 }
+CLAIMED.update({
+    "C06": {
+        "text": "Props/C06.v proves that the modelled TOY machine (pre-incremented pc, instruction register fetched one half-cycle early) "
+                "refines the documented reference accumulator machine Spec/ToyRef.v (fetch at pc, execute, advance) step by step and for "
+                "runs of every length, for every memory image incl. self-modifying stores, every accumulator, pc wrap at 4095, opcodes "
+                "13-15 as NOP, halting exactly when the pc passes the last instruction, two cycles and one count per instruction. Tied to "
+                "toy_simulation.py/toy_instructions.py by one-step comparison over instruction words (all 2^16 in the thorough tier) and "
+                "random self-modifying programs compared after every instruction.",
+        "note": NOTE_COMMON + "Theorems assume the default 4096-word memory; smaller memories are modelled (memory errors) but only compared.",
+        "technique": "Coq refinement proof model = reference machine + differential correspondence model vs implementation",
+    },
+    "C20": {
+        "text": "Props/C20.v proves for ALL model states and ALL call sequences without error outcome that any interleaving of step / "
+                "first half / second half / single-cycle calls ends in exactly the state that the same number of whole steps produces "
+                "(full state record: visualisation values, current/next instruction addresses, counters, started flag, hence memory-table "
+                "markers), that out-of-order calls return a sequencing error with the state unchanged, and that all calls are no-ops once "
+                "done. Tied to toy_simulation.py by random legal/illegal interleavings compared call by call; the implementation is also "
+                "compared against its own whole-step run incl. get_toy_svg_update_values().",
+        "note": NOTE_COMMON + "The SVG directive payload is not modelled; it is compared implementation-vs-implementation.",
+        "technique": TECH,
+    },
+})
 _PENDING = "check not built yet (model/theorems under construction); see DESIGN.md section 9"
 NOT_APPLICABLE = {f"C{i:02d}": _PENDING for i in range(1, 21) if f"C{i:02d}" not in CLAIMED}
